@@ -57,6 +57,8 @@ func runC13(c *Ctx) {
 	equalityExtra(c)
 	dateGranularity(c, "date-granularity")
 	injectiveEncoding(c)
+	schemaMapKeyRule(c, c.reachDecls("schema-map-key", "sbom.(*Node).flatString", "sbom.(*Edge).flatString", "sbom.(*Person).flatString",
+		"sbom.(*ExternalReference).flatString", "sbom.(*NodeList).Equal", "sbom.(*Node).Equal", "sbom.(*Node).HashesMatch"))
 }
 
 func runC14(c *Ctx) {
@@ -67,4 +69,7 @@ func runC14(c *Ctx) {
 	c.diffRule("sbom.(*Node).Diff")
 	c.floor("diff-stanza", 26, "26 Node fields")
 	diffHelpers(c)
+	// the list helper compares nested messages through their equality encoding: a field the
+	// encoding reads under the wrong key is a difference Diff cannot see
+	schemaMapKeyRule(c, c.reachDecls("schema-map-key", "sbom.(*Node).Diff", "sbom.(*Person).flatString", "sbom.(*ExternalReference).flatString"))
 }
